@@ -166,9 +166,12 @@ ArgErrorsBeforeIO == [][act'.name \in {"SendInvalid", "RecvInvalid"} =>
                            (si' = si /\ soff' = soff /\ ri' = ri /\ roff' = roff)]_vars
 BytesConserved == Avail >= 0
 
+(* the size the receiver's pending read() asks the kernel for: never more than what remains of the
+   header / message it is reading (anything more could be bytes of the next message) *)
+Asked == IF rcall = <<>> \/ rdead THEN 0 ELSE RNeed
 Proj == [msgs |-> msgs, si |-> si, soff |-> soff, sclosed |-> sclosed, ri |-> ri, roff |-> roff,
          rcall |-> rcall, results |-> results, readable |-> readable, rdead |-> rdead,
-         slog |-> slog, neintr |-> neintr, nops |-> nops, intact |-> TRUE]
+         slog |-> slog, neintr |-> neintr, nops |-> nops, intact |-> TRUE, asked |-> Asked]
 EmitEdge == PrintT(ToJson([from |-> Proj, act |-> act', to |-> Proj', lvl |-> TLCGet("level")]))
 EmitInit == TLCGet("level") > 1 \/ PrintT(ToJson([init |-> Proj]))
 =============================================================================
